@@ -751,9 +751,14 @@ func TestCheck(t *testing.T) {
 		r.Finish()
 	}
 
-	c.partA()
-	c.partB()
-	c.partC()
+	for _, part := range []struct {
+		name string
+		f    func()
+	}{{"a", c.partA}, {"b", c.partB}, {"c", c.partC}} {
+		t0 := time.Now()
+		part.f()
+		r.Set("wall_s_part_"+part.name, math.Round(time.Since(t0).Seconds()*10)/10)
+	}
 
 	r.Set("rule", "(a) every answer (status 100..599, 8 error shapes) x attempt 1..max+2 x retry.max on one leased message through the real PushDispatcher; "+
 		"(b) every compile-accepted retry config of the DSL grid x every attempt up to 70 x harness-answered jitter draw; "+
